@@ -829,3 +829,19 @@ M('k40-filler-tables-built-by-a-helper', ['C14', 'C19'], PF, "        self.forms
   'the two tables of the filler assigned in one statement', expect='silent')
 M('k39-year-option-with-a-short-form', ['C07', 'C14'], CLI, "    solve_parser.add_argument(\n        '--year',\n", "    solve_parser.add_argument(\n        '-y', '--year',\n", None,
   'the solve sub-command also accepts -y', expect='silent')
+
+# ------------------------------------------------------------------ round 11 of the seeded changes
+M('k11d-only-infinity-rejected', ['C11', 'C01'], IN, "        if not math.isfinite(value):\n", "        if math.isinf(value):\n", 'K11d', 'the finiteness guard of FloatInput tests isinf alone: "nan" validates (seed C01-V)')
+M('k11d-decimal-comma-accepted', ['C11', 'C09'], IN, "        value = float(string)\n        if not math.isfinite(value):\n", "        if ',' in string and '.' not in string:\n            string = string.replace(',', '.')\n        value = float(string)\n        if not math.isfinite(value):\n", 'K11d',
+  'FloatInput rewrites a comma to a decimal point: "4,000" is read as 4.0 and passes every limit gate (seeds C09-U, C11-V)')
+M('k11d-text-stripped-in-a-local', ['C11', 'C09'], IN, "        value = float(string)\n        if not math.isfinite(value):\n", "        text = string\n        value = float(text)\n        if not math.isfinite(value):\n", None,
+  'the text handed to float() through a local', expect='silent')
+M('k13-inputs-known-by-bare-form-name', ['C10', 'C13', 'C06', 'C01'], S, "        new_form = self._form_map[form_name](solver=self, instance=form_instance)\n",
+  "        if input_only and form_name in getattr(self, '_specs_loaded', ()):\n            return\n        self._specs_loaded = getattr(self, '_specs_loaded', set()) | {form_name}\n        new_form = self._form_map[form_name](solver=self, instance=form_instance)\n", 'K13',
+  'an input-only load returns early when a form of the same bare name was loaded before: the inputs of 8889:spouse stay unknown and the retry recurses without end (seeds C10-U, C13-U)')
+M('k12-queue-deduplicated-by-sort-key', ['C06', 'C01', 'C04', 'C05'], S, "        if isinstance(unattempted, list):\n            self._unattempted_fields.extend(unattempted)\n        else:\n            self._unattempted_fields.append(unattempted)\n        self._unattempted_fields.sort(key=sort_keys)\n",
+  "        if not isinstance(unattempted, list):\n            unattempted = [unattempted]\n        for field in unattempted:\n            if any(sort_keys(q) == sort_keys(field) for q in self._unattempted_fields):\n                continue\n            self._unattempted_fields.append(field)\n        self._unattempted_fields.sort(key=sort_keys)\n", 'K12',
+  'a line whose sort key equals that of a queued line is not queued (box_12a / box_12_a): it is never evaluated and its waiters are never released (seed C06-U)')
+M('k12-queue-filled-in-a-loop', ['C06', 'C01', 'C04', 'C05'], S, "        if isinstance(unattempted, list):\n            self._unattempted_fields.extend(unattempted)\n        else:\n            self._unattempted_fields.append(unattempted)\n        self._unattempted_fields.sort(key=sort_keys)\n",
+  "        if not isinstance(unattempted, list):\n            unattempted = [unattempted]\n        for field in unattempted:\n            self._unattempted_fields.append(field)\n        self._unattempted_fields.sort(key=sort_keys)\n", None,
+  'the queue filled element by element', expect='silent')
